@@ -130,20 +130,12 @@ def run(db: DB, rep: Report) -> None:
                 if any("eager_" in show(t) or show(t) == "iter" for t in r["tmpls"])]
     if len(tr_sites) != 1:
         raise AnalysisError("type_ label site of set_collecting not found")
-    label_node = tr_sites[0]["node"].args[0]
-    srcs = set()
-    if isinstance(label_node, ast.Name):
-        for st, val in paths.defs_of(sc.node, label_node.id):
-            if isinstance(st, ast.AugAssign):
-                continue
-            if isinstance(val, ast.Constant):
-                srcs.add("lit:" + val.value)
-            elif isinstance(val, ast.Call) and isinstance(val.func, ast.Attribute):
-                srcs.add("call:" + val.func.attr)
-            else:
-                lits = [c.value for c in _strs(val)]
-                srcs.add("tmpl:" + "|".join(sorted(lits)))
-    ok = srcs == {"lit:iter", "call:get_fiber_trace", "tmpl:_|eager_"}
+    # the label templates the builder interpreter derives for that argument: 'iter', the eager schema,
+    # and otherwise only what Metrics.get_fiber_trace returns (an opaque string)
+    srcs = {show(t) for t in tr_sites[0]["tmpls"]}
+    calls_gft = any(isinstance(x, ast.Call) and isinstance(x.func, ast.Attribute) and
+                    x.func.attr == "get_fiber_trace" for x in walk_no_nested(sc.node))
+    ok = srcs == {"iter", "eager_□_□_read", "eager_□_□_write", "□"} and calls_gft
     rep.check("T1", ok, db.loc(tr_sites[0]["node"]), sc.short, "producer-label-sources",
               "registered label comes from %s" % sorted(srcs),
               "the label registered with Metrics.trace in set_collecting comes from %s; expected exactly "
